@@ -19,3 +19,4 @@ import MakoModel.Props.C17
 import MakoModel.Props.C18
 import MakoModel.Props.C19
 import MakoModel.Props.C20
+import MakoModel.Pipeline.LemmasSites   -- relates C02's and C10's transcriptions of write_def_finish (in no check's import closure)
